@@ -186,15 +186,37 @@ func runC17(c *fw.Ctx) {
 		}
 		donor := util.NewMemoryNodeDB()
 		absent := map[string]bool{}
+		// on a persistent store every other removal set is removed for real: the store first holds the whole trie and has
+		// served a complete read of it, then the set is deleted in one batch (the way pruning removes nodes) - the same
+		// store object has to answer for what it holds now
+		deleteLater := storeKind == 2 && si%2 == 0 && len(removed) > 0
 		for i, n := range nodes {
 			if removed[i] {
 				_ = donor.PutNode(n.Key, n.Node)
 				absent[string(n.Key)] = true
+				if deleteLater {
+					_ = part.PutNode(n.Key, n.Node)
+				}
 			} else if storeKind == 1 && i%2 == 1 {
 				_ = part.(*util.LevelNodeDB).GetPrev().PutNode(n.Key, n.Node)
 			} else {
 				_ = part.PutNode(n.Key, n.Node)
 			}
+		}
+		if deleteLater {
+			if has, herr := lab.NewMPT(part, int64(nver), root).HasMissingNodes(context.Background()); herr != nil || has {
+				c.Violate("", "a complete trie on a persistent store reports missing nodes: %v, %v", has, herr)
+			}
+			var ks []util.Key
+			for i, n := range nodes {
+				if removed[i] {
+					ks = append(ks, n.Key)
+				}
+			}
+			if derr := part.MultiDeleteNode(ks); derr != nil {
+				panic(derr)
+			}
+			c.Count("removal_sets_deleted_in_one_batch_from_a_store_that_had_served_them", 1)
 		}
 		// frontier: absent nodes reachable through present ones; covered[path] = lookups that must fail
 		frontier := map[string]bool{}
@@ -234,6 +256,35 @@ func runC17(c *fw.Ctx) {
 			fail("HasMissingNodes error: %v", err)
 		} else if has != (len(frontier) > 0) {
 			fail("HasMissingNodes = %v but %d reachable node(s) are absent", has, len(frontier))
+		}
+		if len(frontier) >= 2 && len(nodes) <= 200 && storeKind == 0 {
+			// one handle is asked twice: its first report is still in use (a sync works through it) when one of the reported
+			// nodes has arrived and the handle is asked again; the first report stays what it was
+			H := lab.NewMPT(part, mv, root)
+			r1, _ := H.GetAllMissingNodes()
+			snap := make([]string, len(r1))
+			for i, k := range r1 {
+				snap[i] = string(k)
+			}
+			if len(r1) > 0 {
+				if nd, gerr := donor.GetNode(r1[0]); gerr == nil {
+					_ = part.PutNode(r1[0], nd)
+					r2, _ := H.GetAllMissingNodes()
+					for i, k := range r1 {
+						if string(k) != snap[i] {
+							fail("the list returned by GetAllMissingNodes changed (entry %d of %d) when the same handle was asked again after one reported node had arrived", i, len(r1))
+							break
+						}
+					}
+					for _, k := range r2 {
+						if string(k) == snap[0] {
+							fail("GetAllMissingNodes still reports %x after it was put back", k)
+						}
+					}
+					_ = part.DeleteNode(r1[0])
+					c.Count("missing_node_reports_held_across_a_second_call", 1)
+				}
+			}
 		}
 		miss, _ := lab.NewMPT(part, mv, root).GetAllMissingNodes()
 		got := map[string]bool{}
@@ -659,7 +710,7 @@ func init() {
 			return 4800
 		},
 		Run:    runC17,
-		Floors: map[string]int64{"fat_tries": 50, "removal_sets_above_256_nodes": 35, "removal_sets_with_more_than_256_absent_nodes_reachable_through_present_ones": 20, "store_level_repairs": 15000, "store_level_repairs_into_the_lower_level": 2000, "store_level_repairs_with_a_refused_write": 1000, "store_level_repairs_from_a_persistent_donor": 3000, "syncs_after_a_local_delete": 3000, "tries_built_from_version_0": 1500, "handles_with_history_synced_back": 5000, "handles_with_history_synced_back_over_real_deletions": 2000, "tries": 3000, "removal_sets": 50000, "removal:single": 30000, "removal:subtree": 9000, "removal:scattered": 12000, "blocked_lookups": 50000, "repairs_with_foreign_origin": 20000, "tries_with_mixed_origins": 1000, "warm_cache_repairs": 10000, "repaired_child_merged_into_parent": 8000, "synced_state_saved_and_reread": 8000, "repairs_from_layered_donor": 8000},
+		Floors: map[string]int64{"fat_tries": 50, "removal_sets_above_256_nodes": 35, "removal_sets_deleted_in_one_batch_from_a_store_that_had_served_them": 3000, "missing_node_reports_held_across_a_second_call": 2000, "removal_sets_with_more_than_256_absent_nodes_reachable_through_present_ones": 20, "store_level_repairs": 15000, "store_level_repairs_into_the_lower_level": 2000, "store_level_repairs_with_a_refused_write": 1000, "store_level_repairs_from_a_persistent_donor": 3000, "syncs_after_a_local_delete": 3000, "tries_built_from_version_0": 1500, "handles_with_history_synced_back": 5000, "handles_with_history_synced_back_over_real_deletions": 2000, "tries": 3000, "removal_sets": 50000, "removal:single": 30000, "removal:subtree": 9000, "removal:scattered": 12000, "blocked_lookups": 50000, "repairs_with_foreign_origin": 20000, "tries_with_mixed_origins": 1000, "warm_cache_repairs": 10000, "repaired_child_merged_into_parent": 8000, "synced_state_saved_and_reread": 8000, "repairs_from_layered_donor": 8000},
 		Assumptions: []string{
 			"the donor is a MemoryNodeDB (map iteration order = arbitrary repair order)",
 			"single-node removals are exhaustive up to 24 nodes per trie; other subsets are sampled",
